@@ -1006,7 +1006,7 @@ def mpf_mod(s, t, prec, rnd=round_fast):
     if ((not sman) and sexp) or ((not tman) and texp):
         return fnan
     # Important special case: do nothing if t is larger
-    if ssign == tsign and texp > sexp+sbc:
+    if tman and ssign == tsign and texp > sexp+sbc:
         return mpf_pos(s, prec, rnd)
     # Another important special case: this allows us to do e.g. x % 1.0
     # to find the fractional part of x, and it will work when x is huge.
